@@ -47,6 +47,27 @@ ABOVE_MODULUS = [v for v in limb_boundary(P) if P <= v < 2**256]
 FIELD_BOUNDARY_EXT = FIELD_BOUNDARY + MONTGOMERY_SMALL + NEAR_MODULUS[:: max(1, len(NEAR_MODULUS) // 12)]
 
 
+def decimal_special(rng):
+    """values special in the DECIMAL representation (the circom input file prints decimal numerals; printers that work in
+    chunks of 9 / 18 / 19 digits — one u32 / u64 per chunk — have their boundaries here): powers of ten and their neighbours,
+    numerals with all-zero digit groups below a non-zero one, long runs of zero digits, repdigits"""
+    r = rng.random()
+    if r < 0.25:
+        k = rng.choice([1, 2, 8, 9, 10, 17, 18, 19, 20, 27, 36, 37, 38, 39, 54, 57, 58, 72, 76])
+        return (10**k + rng.choice([-1, 0, 0, 1])) % P
+    if r < 0.6:
+        g = rng.choice([9, 18, 19])                      # chunk size
+        n = rng.randint(2, 77 // g + 1)
+        groups = [rng.choice([0, 0, 1, rng.randrange(10**g), 10**g - 1, 10**(g - 1)]) for _ in range(n)]
+        groups[-1] = groups[-1] or rng.randint(1, 9)
+        return sum(x * 10**(g * i) for i, x in enumerate(groups)) % P
+    if r < 0.8:
+        m = rng.randint(1, 76)
+        return (rng.randint(1, 9) * 10**m + rng.randrange(10**rng.randint(0, m))) % P
+    d = rng.randint(1, 9)
+    return int(str(d) * rng.randint(1, 76)) % P
+
+
 def fr_hex(v):
     return hex(v)
 
